@@ -271,6 +271,9 @@ class Analysis:
 
 
 def well_formed(grammars):
+    gs = [grammars] if isinstance(grammars, dict) else grammars
+    if any(gast.bare_py_in_ctor(G) for G in gs):
+        return False
     return Analysis(grammars).well_formed()
 
 
